@@ -4,6 +4,7 @@ import z3
 from contracts.common import *
 from pyvc.unit import Unit, Contract, LoopInv
 from pyvc.seq import Chunk, list_term, val_term, Val, v_snoc, v_nil, RecFn
+from pyvc.seq import v_get, v_has
 from pyvc.values import Opq, I, SBytes, SStr, is_z3, OpaqueVal, Obj, lit, Raised, ExcObj
 from pyvc import ops as _ops
 from pyvc.interp import lookup_qualname, BoundMethod
@@ -1038,3 +1039,133 @@ class SrcCalloutsNative(Unit):
 
 
 UNITS = UNITS + [SrcCalloutsNative]
+
+
+# ------------------------------------------------------------------ Registry.getErrorMessage for ANY registry
+REG = "pel.peltool.registry.Registry"
+
+
+def reg_entry(j):
+    return OpaqueVal(ufun('reg_entry', z3.IntSort(), Val)(zint(j)), 'val')
+
+
+def reg_match(j, code, src_type):
+    """entry j has a reason code, its type (BD when it names none) is the SRC's type, and its reason code contains the code"""
+    e = ufun('reg_entry', z3.IntSort(), Val)(zint(j))
+    src = v_get(e, lit("SRC"))
+    same_type = z3.If(v_has(src, lit("Type")), v_get(src, lit("Type")) == val_term(src_type), zbool(Eq(src_type, "BD")))
+    return z3.And(v_has(src, lit("ReasonCode")), same_type, v_has(v_get(src, lit("ReasonCode")), str_term(code)))
+
+
+class RegistryInv(LoopInv):
+    """nothing is written and no entry before the current one was a match (a match returns at once)"""
+    func = REG + ".getErrorMessage"
+    loop = 0
+    modifies_locals = ('pel', 'entryType')
+
+    def heap_targets(self, it, fr):
+        return []
+
+    def havoc(self, it, fr, i):
+        pass
+
+    def inv(self, it, fr, i):
+        j = z3.Int('j!reg')
+        code, typ = fr.locals['code'], fr.locals['srcType']
+        return And(Eq(len(fr.locals['output']), 0),
+                   z3.ForAll([j], z3.Implies(z3.And(j >= 0, j < zint(i)), z3.Not(reg_match(j, code, typ)))))
+
+
+class GetErrorMessageAny(Unit):
+    """Registry.getErrorMessage over a registry of any number of arbitrary entries: the message comes from the first entry, in
+    registry order, that has a reason code, whose type (default BD) is the SRC's type and whose reason code contains the code"""
+    prop = "C03"
+    name = "Registry.getErrorMessage (any registry)"
+    target = REG + ".getErrorMessage"
+    invariants = [RegistryInv]
+    min_obligations = 3
+
+    def inputs(self, S):
+        n = S.int("reg_n", 0, None)
+        self._n = n
+        if S.symbolic:
+            return dict(self=Obj(lookup_qualname(REG), dict(pels=LazySeq(n, reg_entry, 'registry'))), code=S.opaque_str("code"),
+                        srcType=S.choice("srcType", ["BD", "11"]))
+        import json as _json
+        rng = getattr(S, 'rng', None)
+        if rng is None:
+            reg, code, typ = _json.loads(S.values.get('_reg', '[[], "2001", "BD"]'))
+        else:
+            codes = ["2001", "2002", "0x2003", "1F00"]
+            reg = []
+            for _ in range(rng.randrange(0, 7)):
+                src = {}
+                if rng.random() < 0.85:
+                    src["ReasonCode"] = "0x" + rng.choice(codes)[-4:] if rng.random() < 0.7 else rng.choice(codes)
+                if rng.random() < 0.5:
+                    src["Type"] = rng.choice(["BD", "11"])
+                if rng.random() < 0.4:
+                    src["Words6To9"] = rng.choice([{}, {"6": {"Description": "d"}}])
+                doc = {"Message": "m%d" % rng.randrange(100)}
+                if rng.random() < 0.4:
+                    doc["MessageArgSources"] = ["SRCWord6"]
+                reg.append({"SRC": src, "Documentation": doc})
+            code, typ = rng.choice(codes)[-4:], rng.choice(["BD", "11"])
+            S.log['_reg'] = _json.dumps([reg, code, typ])
+        return dict(self=None, code=code, srcType=typ, _reg=reg)
+
+    def call_native(self, inp):
+        from pel.peltool.registry import Registry
+        r = object.__new__(Registry)
+        r.pels = inp['_reg']
+        return r.getErrorMessage(inp['code'], inp['srcType'])
+
+    def check(self, P, inp, old, out):
+        if not P.symbolic:
+            P.prove(out.returned, "returns on a well-formed registry")
+            if not out.returned:
+                return
+            want = {}
+            for e in inp['_reg']:
+                if "ReasonCode" in e["SRC"] and e["SRC"].get("Type", "BD") == inp['srcType'] and inp['code'] in e["SRC"]["ReasonCode"]:
+                    want = {"Message": e["Documentation"]["Message"]}
+                    if "MessageArgSources" in e["Documentation"]:
+                        want["MessageArgSources"] = e["Documentation"]["MessageArgSources"]
+                    if e["SRC"].get("Words6To9"):
+                        want["Words6To9"] = e["SRC"]["Words6To9"]
+                    break
+            P.prove(out.value == want, "message of the first entry, in registry order, with that reason code and SRC type")
+            return
+        ctx = P.ctx
+        how = ctx.ghost.get(RegistryInv.func + '#loop0.exit')
+        i = ctx.ghost.get(RegistryInv.func + '#loop0.exit_index')
+        P.prove(how is not None, "the registry loop was reached")
+        ctx.ghost.setdefault('gem_seen', []).append((how, out.returned))
+        if not out.returned:
+            # a malformed entry (no SRC / Documentation / Message) is an ordinary error of that registry, contained by SRC.toJSON
+            P.prove(how == 'break-or-return', "fails only on a malformed registry entry")
+            return
+        if how == 'exhausted':
+            P.prove(Eq(len(out.value), 0), "no entry matched: empty result")
+            P.prove(Eq(i, self._n), "after every entry was looked at")
+            return
+        e = reg_entry(i).term
+        src = v_get(e, lit("SRC"))
+        doc = v_get(e, lit("Documentation"))
+        j = z3.Int('j!regc')
+        P.prove(reg_match(i, inp['code'], inp['srcType']),
+                "the entry used has a reason code that contains the SRC's code, and the SRC's type (BD when the entry names none)")
+        P.prove(z3.ForAll([j], z3.Implies(z3.And(j >= 0, j < zint(i)), z3.Not(reg_match(j, inp['code'], inp['srcType'])))),
+                "and it is the first such entry in registry order")
+        P.prove(Iff(v_has(doc, lit("MessageArgSources")), 'MessageArgSources' in out.value),
+                "MessageArgSources is passed on exactly when the entry has it")
+        if 'MessageArgSources' in out.value:
+            P.prove(Eq(val_term(out.value['MessageArgSources']), v_get(doc, lit("MessageArgSources"))), "MessageArgSources == the entry's")
+        if 'Words6To9' in out.value:
+            P.prove(Eq(val_term(out.value['Words6To9']), v_get(src, lit("Words6To9"))), "Words6To9 == the entry's")
+        P.prove(set(out.value.keys()) <= {'Message', 'MessageArgSources', 'Words6To9'}, "nothing else is reported")
+        P.prove(out.value.get('Message') is not None and Eq(val_term(out.value['Message']), v_get(doc, lit("Message"))),
+                "Message == the entry's documentation message")
+
+
+UNITS = UNITS + [GetErrorMessageAny]
